@@ -57,6 +57,10 @@ def rx(n):
         return str(n.get('value'))
     if k == 'CXXDefaultArgExpr':
         return '<default>'
+    if k == 'InitListExpr':
+        return '{%s}' % ', '.join(rx(a) for a in inner)
+    if k == 'UnaryExprOrTypeTraitExpr':
+        return '%s(%s)' % (n.get('name'), (n.get('argType') or {}).get('qualType') or (rx(inner[0]) if inner else ''))
     if k == 'CXXThrowExpr':
         return 'throw' + (' ' + rx(inner[0]) if inner else '')
     if k == 'MemberExpr':
@@ -170,7 +174,12 @@ def norm_stmt(n, out, ind):
         es = [c for c in inner if isinstance(c, dict) and c.get('kind')]
         e = rx(es[0]) if es else ''
         out.append((pad + 'return ' + e).rstrip()); return ('return', e)
-    if k in ('DoStmt', 'ForStmt', 'SwitchStmt', 'CXXTryStmt', 'GotoStmt', 'ContinueStmt'):
+    if k == 'DoStmt' and 'checkMode' in json.dumps(n) and '__assert_fail' in json.dumps(n):
+        # MOMO_CHECK(expr): do { assert(mode != assertion || expr); if (mode == exception) ... throw } while (false)
+        first = [c for c in inner[0].get('inner', []) if isinstance(c, dict) and c.get('kind')][0]
+        c = cxx2coq.find_assert_cond(first)
+        out.append(pad + 'MOMO_CHECK ' + (rx(c) if c is not None else '?')); return ('expr', '')
+    if k in ('DoStmt', 'ForStmt', 'SwitchStmt', 'GotoStmt', 'ContinueStmt'):
         raise Deviation('unsupported statement kind %s' % k)
     # expression statement (MOMO_ASSERT expands to a conditional around __assert_fail)
     if k in ('ConditionalOperator', 'CStyleCastExpr', 'ParenExpr', 'CXXFunctionalCastExpr', 'CXXStaticCastExpr') and cxx2coq.is_assert_stmt(n):
@@ -444,7 +453,32 @@ return this->pvMakeRow(raw)''',
     'DataTable::pvDestroyRaw': '''this->GetColumnList().DestroyRaw((&this->GetMemManager()), raw)
 this->mRawMemPool.Deallocate(raw)''',
 })
-TABLE_MEMBERS = [('DataTable::pvCreateRaw<RawCreator>', 'pvCreateRaw', ('CXXMethodDecl',), {'nparams': 1}),
+EXPECTED_TEXT.update({
+    # row paths of the table (events A/U, X, R of the trace machine) and the raw pool's parameters
+    'DataTable::pvCreateRawMemPool': '''var columnList = this->GetColumnList()
+var size = minmax(columnList.GetTotalSize(), sizeof(void *)).second
+return construct(construct(size, columnList.GetAlignment()), construct(this->GetMemManager()))''',
+    'DataTable::Extract(rowNumber)': '''MOMO_CHECK cast(((checkMode != assertion) || (rowNumber < this->GetCount())))
+return this->pvMakeRow(this->pvExtractRaw(rowNumber, keepRowOrder))''',
+    'DataTable::Remove(rowNumber)': '''MOMO_CHECK cast(((checkMode != assertion) || (rowNumber < this->GetCount())))
+this->pvDestroyRaw(this->pvExtractRaw(rowNumber, keepRowOrder))''',
+    'DataTable::TryAdd': '''MOMO_CHECK cast(((checkMode != assertion) || ((&row.GetColumnList()) == (&this->GetColumnList()))))
+this->mRaws.Reserve((this->mRaws.GetCount() + 1))
+var res = this->mIndexes.AddRaw(row.GetRaw())
+if (res.raw != null) {
+  return {this->pvMakeRowReference(res.raw), res.uniqueHashIndex}
+}
+var raw = ExtractRaw(row)
+this->pvSetNumber(raw, this->mRaws.GetCount())
+this->mRaws.AddBackNogrow(raw)
+(++this->mCrew.GetChangeVersion())
+return {this->pvMakeRowReference(raw), empty}''',
+})
+TABLE_MEMBERS = [('DataTable::pvCreateRawMemPool', 'pvCreateRawMemPool', ('CXXMethodDecl',), {}),
+                 ('DataTable::Extract(rowNumber)', 'Extract', ('CXXMethodDecl',), {'nparams': 2}),
+                 ('DataTable::Remove(rowNumber)', 'Remove', ('CXXMethodDecl',), {'nparams': 2, 'first_param': 'size_t'}),
+                 ('DataTable::TryAdd', 'TryAdd', ('CXXMethodDecl',), {}),
+                 ('DataTable::pvCreateRaw<RawCreator>', 'pvCreateRaw', ('CXXMethodDecl',), {'nparams': 1}),
                  ('DataTable::pvNewRow<...>', 'pvNewRow', ('CXXMethodDecl',), {}),
                  ('DataTable::pvDestroyRaw', 'pvDestroyRaw', ('CXXMethodDecl',), {})]
 ROW_MEMBERS = [('DataRow(DataRow&&)', 'DataRow', ('CXXConstructorDecl',), {'nparams': 1, 'first_param': '&&'}),
@@ -543,7 +577,7 @@ def check(repo, prog_lines):
         if not ok:
             import difflib
             det = '\n'.join(difflib.unified_diff(EXPECTED_TEXT[fn].splitlines(), text.splitlines(), 'modelled', 'source', lineterm=''))
-        obl.append({'name': 'AST: %s has exactly the modelled effect %s' % (fn, 'on (mColumnList, mRaw, mFreeRaws) [TreiberRows.v]' if fn.startswith('DataRow') else '[TreiberCreate.v: catch path returns the buffer to the pool]'), 'ok': ok, 'detail': det})
+        obl.append({'name': 'AST: %s has exactly the modelled effect %s' % (fn, 'on (mColumnList, mRaw, mFreeRaws) [TreiberRows.v]' if fn.startswith('DataRow') else '[TreiberCreate.v / TreiberRows.v / RawPoolSize.v]'), 'ok': ok, 'detail': det})
     return obl, report
 
 
